@@ -11,7 +11,8 @@ import Proofs.Lemmas.CimTypes
 import Proofs.Lemmas.CimUnpack
 import Proofs.Lemmas.TypedElems
 import Proofs.Lemmas.AtomicXml
-import Pywbem.Model.Utf8
+import Pywbem.Model.Utf8Decode
+import Pywbem.Model.FloatText
 import Proofs.Lemmas.DateTime
 import Proofs.Lemmas.DateTimeWF
 
@@ -253,6 +254,31 @@ theorem C06_real_xml_roundtrip (R : RealCodec) (x : Nat) (hx : R.finite x = true
   rw [hrt, hfmt, (C06_real_fixup_shape g hg).1]
   exact (C06_real_text_parsed_by_float g.withFraction (C06_real_fixup_shape g hg).2 x).1
 
+/-- **real32**: a binary32 value written with '%.11G' is read back by unpack_numeric as a Real32 whose value rounds to
+    the same binary32 value (hypothesis record RealCodec32; the double itself may differ — 11 digits do not pin down a
+    double, and pywbem's Real32 holds a double) -/
+theorem C06_real32_xml_roundtrip (R : RealCodec32) (x : Nat) (hx : R.finite32 x = true) :
+    ∃ y, unpackNumeric (R.parse (fixup (R.fmt x))) (fixup (R.fmt x)) .real32 = .ok (.real32 y) ∧ R.toF32 y = R.toF32 x := by
+  obtain ⟨g, hg, hfmt⟩ := R.shape x hx
+  obtain ⟨y, hy, hyx⟩ := R.rt32 x hx
+  have hfix := (C06_real_fixup_shape g hg)
+  have hparse : R.parse (fixup (R.fmt x)) = some y := by
+    rw [hfmt, hfix.1]
+    unfold GText.withFraction
+    split
+    · rename_i hf; rw [R.dot0 g hg (by simpa using hf), ← hfmt]; exact hy
+    · rw [← hfmt]; exact hy
+  refine ⟨y, ?_, hyx⟩
+  rw [hparse, hfmt, hfix.1]
+  exact (C06_real_text_parsed_by_float g.withFraction hfix.2 y).2
+
+/-- the RealCodec32 hypotheses are satisfiable -/
+example : RealCodec32 :=
+  { fmt := fun _ => ['0'], parse := fun _ => some 0, toF32 := fun _ => 0, finite32 := fun _ => true,
+    shape := fun _ _ => ⟨⟨false, ['0'], [], none⟩, by decide, by decide⟩,
+    rt32 := fun _ _ => ⟨0, rfl, rfl⟩,
+    dot0 := fun _ _ _ => rfl }
+
 /-- the RealCodec hypotheses are satisfiable (a one-value toy codec) -/
 example : RealCodec :=
   { fmt := fun _ => ['0'], parse := fun _ => some 0, finite := fun x => x == 0,
@@ -454,6 +480,14 @@ theorem C06_int_decimal_text_roundtrip (v : Int) (hlen : (natDigits v.natAbs).le
     intOfStr (intStr v) 10 = .ok v :=
   intOfStr_intStr v hlen
 
+/-- the constructor given the decimal text of an integer behaves exactly as given the integer itself:
+    `Uint8(str(v)) == Uint8(v)` for every type and every v (of up to 4300 digits) — accepted iff in range, same value -/
+theorem C06_int_from_decimal_string (t : IntTy) (v : Int) (hlen : (natDigits v.natAbs).length ≤ 4300) :
+    mkIntCfg t { pos := [.str (intStr v)] } = mkIntCfg t { pos := [.int v] } := by
+  simp [mkIntCfg, mkInt, effArgs, pyInt, intOf1, intOfStr_intStr v hlen, bind, Except.bind]
+
+example : mkIntCfg .uint16 { pos := [.str ['6', '5', '5', '3', '5']] } = .ok ⟨.uint16, 65535⟩ := by decide
+
 /-- **CIM integers print/parse losslessly**: for every integer type and every value in its range, the text
     atomic_to_cim_xml writes (CIMInt.__str__) is read back by unpack_single_value as the same value of the same type —
     independently of the float codec (`pf` arbitrary). -/
@@ -578,15 +612,42 @@ example : daysFromCivil 1970 1 1 = 0 ∧ daysFromCivil 2000 3 1 = 11017 ∧ days
 /-- ASCII byte strings decode to the same characters (so `cimvalue(b'abc', 'string') == 'abc'` in the model without any
     parameter) -/
 theorem C06_utf8_ascii (l : List Nat) (h : ∀ b ∈ l, b < 128) :
-    Pywbem.Model.Utf8.utf8Decode l = some (l.map Char.ofNat) := by
+    Pywbem.Model.Utf8Decode.utf8Decode l = some (l.map Char.ofNat) := by
   induction l with
-  | nil => simp [Pywbem.Model.Utf8.utf8Decode]
+  | nil => simp [Pywbem.Model.Utf8Decode.utf8Decode]
   | cons b r ih =>
     have hb := h b (by simp)
     have := ih (fun b' hb' => h b' (by simp [hb']))
-    unfold Pywbem.Model.Utf8.utf8Decode; simp [hb, this]
+    unfold Pywbem.Model.Utf8Decode.utf8Decode; simp [hb, this]
 
-example : Pywbem.Model.Utf8.utf8Decode [0xE2, 0x82, 0xAC] = some ['€'] ∧ Pywbem.Model.Utf8.utf8Decode [0xC0, 0x80] = none ∧
-    Pywbem.Model.Utf8.utf8Decode [0xED, 0xA0, 0x80] = none := by decide
+example : Pywbem.Model.Utf8Decode.utf8Decode [0xE2, 0x82, 0xAC] = some ['€'] ∧ Pywbem.Model.Utf8Decode.utf8Decode [0xC0, 0x80] = none ∧
+    Pywbem.Model.Utf8Decode.utf8Decode [0xED, 0xA0, 0x80] = none := by decide
+
+/-! ## (9) the concrete model of '%.<p>G' (Model/FloatText.lean; agrees with CPython on every value K generates) -/
+
+/-- **INF, -INF and NaN spelled as DSP0201 requires — for every special bit pattern** (all 2^53−2 NaN payloads, both
+    infinities), any precision: the fix-up applied to the concrete formatter's text -/
+theorem C06_real_specials_all_bit_patterns (p bits : Nat) (he : bits / 2 ^ 52 % 2048 = 2047) :
+    fixup (Pywbem.Model.FloatText.fmtG p bits) =
+      if bits % 2 ^ 52 ≠ 0 then "NaN".toList else if bits / 2 ^ 63 % 2 = 1 then "-INF".toList else "INF".toList := by
+  unfold Pywbem.Model.FloatText.fmtG
+  simp only [he]
+  by_cases hm : bits % 2 ^ 52 = 0
+  · by_cases hs : bits / 2 ^ 63 % 2 = 1
+    · simp [hm, hs]; decide
+    · simp [hm, hs]; decide
+  · simp [hm]; decide
+
+/-- both zeros are written as `0.0` / `-0.0` (a DSP0201 realValue that keeps the sign) -/
+theorem C06_real_zeros (p bits : Nat) (he : bits / 2 ^ 52 % 2048 = 0) (hm : bits % 2 ^ 52 = 0) :
+    fixup (Pywbem.Model.FloatText.fmtG p bits) = if bits / 2 ^ 63 % 2 = 1 then "-0.0".toList else "0.0".toList := by
+  unfold Pywbem.Model.FloatText.fmtG
+  simp only [he, hm]
+  by_cases hs : bits / 2 ^ 63 % 2 = 1
+  · simp [hs]; decide
+  · simp [hs]; decide
+
+example : Pywbem.Model.FloatText.floatOfText "-0.0".toList = some (2 ^ 63) ∧
+    Pywbem.Model.FloatText.floatOfText "NaN".toList = some 0x7FF8000000000000 := by decide
 
 end C06
